@@ -333,6 +333,7 @@ pub fn check_case(ctx: &mut Ctx, case: &Case, cfg: &Cfg, props: &[String], want_
         if let Some(pm) = case.meta.get("prog") {
             rec["marks"] = pm["marks"].clone();
             rec["nplain"] = pm["nplain"].clone();
+            rec["idents"] = pm.get("idents").cloned().unwrap_or(json!([]));
             rec["regions"] = Value::Array(pm["regions"].as_array().map(|v| v.iter().map(|rg| json!([cp(rg[0].as_u64().unwrap() as usize), cp(rg[1].as_u64().unwrap() as usize)])).collect()).unwrap_or_default());
         } else {
             rec["regions"] = Value::Array(crate::toggle::regions(text, &tin).iter().map(|(s, e)| json!([cp(*s), cp(*e)])).collect());
@@ -375,6 +376,22 @@ pub fn check_case(ctx: &mut Ctx, case: &Case, cfg: &Cfg, props: &[String], want_
             bump(&mut res, "C02");
             if let Some(v) = c02(text, &tin, &out, tout, cfg.format_multiline_strings) {
                 res.viols.push(v);
+            } else if let Some(ids) = case.meta.get("prog").and_then(|pm| pm.get("idents")).and_then(|x| x.as_array()) {
+                // tokens the grammar knows to be identifiers keep their spelling, even when it is that of a contextual keyword
+                let pin: Vec<&Tok> = tin.iter().filter(|t| !t.is_comment() && !t.is_directive() && t.kind != "Eof").collect();
+                let pout: Vec<&Tok> = tout.iter().filter(|t| !t.is_comment() && !t.is_directive() && t.kind != "Eof").collect();
+                if pin.len() == pout.len() {
+                    for o in ids {
+                        let o = o.as_u64().unwrap() as usize;
+                        // (the four portability directives are exempt: whether such a word at the end of a declaration is the
+                        // directive or a name is a heuristic in pasfmt, and the unchanged tree already lower-cases some names)
+                        let portability = |w: &str| matches!(w.to_ascii_lowercase().as_str(), "platform" | "deprecated" | "experimental" | "library");
+                        if o < pin.len() && pin[o].text(text) != pout[o].text(&out) && !portability(pin[o].text(text)) {
+                            res.viols.push(Viol { prop: "C02", clause: "identifier_case", detail: format!("identifier {:?} became {:?}: {:?}", pin[o].text(text), pout[o].text(&out), crate::mon::context(&out, pout[o].content_start())) });
+                            break;
+                        }
+                    }
+                }
             }
         }
     }
@@ -389,7 +406,35 @@ pub fn check_case(ctx: &mut Ctx, case: &Case, cfg: &Cfg, props: &[String], want_
             res.viols.extend(vs);
         }
     }
-    let unsolved_site = if has_step(&base.events, "wrap_unsolved") { " [site: the program contains a line without a wrapping solution]" } else { "" };
+    let unsolved_site: String = match final_stage(&base.events) {
+        Some(fin) if has_step(&base.events, "wrap_unsolved") => {
+            // why has the line no solution? (classified so that a known finding can name the exact situation)
+            let mut reasons: Vec<&str> = vec![];
+            for a in step_args(&base.events, "wrap_unsolved") {
+                let li = a[0] as usize;
+                let mut toks: Vec<usize> = vec![];
+                for (k, l) in fin.lines.iter().enumerate() {
+                    let mut anc = Some(k);
+                    let mut hit = false;
+                    let mut guard = 0;
+                    while let Some(x) = anc {
+                        if x == li { hit = true; break; }
+                        anc = fin.lines[x].parent.map(|p| p.0);
+                        guard += 1;
+                        if guard > 1000 { break; }
+                    }
+                    if hit { toks.extend(l.tokens.iter().copied()); }
+                }
+                let caret_comment = toks.iter().any(|&t| fin.kinds[t].starts_with("Op(Caret") && fin.kinds.get(t + 1).is_some_and(|k| k.starts_with("Comment(")));
+                reasons.push(if caret_comment { "comment directly after a pointer caret" } else { "unclassified" });
+            }
+            reasons.sort();
+            reasons.dedup();
+            format!(" [site: the program contains a line without a wrapping solution: {}]", reasons.join(", "))
+        }
+        _ => String::new(),
+    };
+    let unsolved_site = unsolved_site.as_str();
     if !unsolved_site.is_empty() && wf {
         *res.nontrivial.entry("unsolved_in_wellformed").or_insert(0) += 1;
     }
